@@ -125,6 +125,11 @@ func (m *Monitor) Step(ln int, op, got string) *Hit {
 		if ok {
 			want = "val " + v
 		}
+		if got == "err gas" && m.metered {
+			// a metered state may refuse a read; what it must never do is answer with another
+			// value than the most recent write in scope
+			return nil
+		}
 		if got != want {
 			if kind == "tree" {
 				// the tree may legitimately hold a literal tombstone that was written out
